@@ -191,6 +191,25 @@ def warm_traversals(e):
     return out
 
 
+def touched_traversals(e):
+    """the same questions on a fresh tree after read-only queries (variable sets, repr, hash,
+    a Problem listing its variables) were made on every node and container"""
+    import optyx.analysis as A
+    K.touch(e)
+    out = {}
+    for name, fn, conv in (("compute_degree[touched]", lambda: A.compute_degree(e), lambda d: d), ("e.degree[touched]", lambda: e.degree, lambda d: d),
+                           ("is_linear[touched]", lambda: A.is_linear(e), lambda b: 1 if b else None), ("is_quadratic[touched]", lambda: A.is_quadratic(e), lambda b: 2 if b else None),
+                           ("_compute_degree_iterative[touched]", lambda: A._compute_degree_iterative(e), lambda d: d),
+                           ("_compute_degree_impl[touched]", lambda: A._compute_degree_impl(e), lambda d: d)):
+        try:
+            out[name] = conv(fn())
+        except RecursionError:
+            out[name] = None
+        except Exception as ex:  # noqa: BLE001
+            out[name] = ex
+    return out
+
+
 def fd_terms(recipe, names, val, hval, d):
     """reference values f(x + k h), k = 0..d+1, and the domain conditions"""
     vals = []
@@ -226,6 +245,7 @@ def check_recipe(recipe, planted=None):
     def both():
         t = traversals(K.build_recipe(recipe, val)[1])
         t.update(warm_traversals(K.build_recipe(recipe, val)[1]))   # a fresh tree, inner nodes queried first
+        t.update(touched_traversals(K.build_recipe(recipe, val)[1]))
         return t
 
     for dec, labels, pc, trav in K.explore(both, max_paths=50):
@@ -293,6 +313,7 @@ def replay(payload):
     val = {n: 0.5 for n in allv}
     trav = traversals(K.build_recipe(recipe, val)[1])
     trav.update(warm_traversals(K.build_recipe(recipe, val)[1]))
+    trav.update(touched_traversals(K.build_recipe(recipe, val)[1]))
     got = trav.get(name)
     if isinstance(got, Exception) or got is None or int(got) != d:
         return False, f"{name} now reports {got!r}, not {d}"
